@@ -145,25 +145,24 @@ theorem goodQ_outEq : GoodQ OutEq := by
     · exact h
     · rcases h2 with h2 | h2 <;> simp at h2
 
+theorem preBody_flag (cfg : Cfg) (be g1 g2 : Bool) (s : RSt) :
+    StepRel OutEq (preBody cfg be g1 s) (preBody cfg be g2 s) := by
+  unfold preBody
+  by_cases hin : s.inSeq = true
+  · have := nextInSeq_flag cfg be g1 g2 s
+    simp only [hin, if_true]
+    exact ⟨this.1, this.2⟩
+  · simp only [hin]
+    exact StepRel.refl goodQ_outEq _
+
 theorem preHeader_flag (cfg : Cfg) (be g1 g2 : Bool) (s : RSt) :
     StepRel OutEq (preHeader cfg be g1 s) (preHeader cfg be g2 s) := by
   unfold preHeader
-  generalize (if s.pending = true then
-      match updateSeqDelimiters s with
-      | .tok t s' => Step.ret (.tok t) s'
-      | .err s' => .ret (.err .inconsistentSequenceEnd) { s' with hardBreak := true }
-      | .none s' => .go s'
-    else .go s) = r
-  cases r with
-  | ret o s' => exact StepRel.refl goodQ_outEq _
-  | go s' =>
-    simp only
-    by_cases hin : s'.inSeq = true
-    · have := nextInSeq_flag cfg be g1 g2 s'
-      simp only [hin, if_true]
-      exact ⟨this.1, this.2⟩
-    · simp only [hin]
-      exact StepRel.refl goodQ_outEq _
-
+  split
+  · split
+    · exact StepRel.refl goodQ_outEq _
+    · exact StepRel.refl goodQ_outEq _
+    · exact preBody_flag cfg be g1 g2 _
+  · exact preBody_flag cfg be g1 g2 _
 
 end Dicom.Rd
